@@ -25,6 +25,18 @@ const (
 	kLevel
 	kDefLevel
 	kDefBad
+	// plain kinds of other widths
+	kInt8
+	kInt32
+	kUint8
+	kUint32
+	kUint64
+	kFloat32
+	// library leaves that take their value through an Unpacker interface
+	kUNum
+	kULevel
+	kUPort
+	kUStr
 	kStruct
 	kPtr
 	kSlice
@@ -33,13 +45,44 @@ const (
 	kIface
 )
 
-func (k kind) scalar() bool { return k <= kDefBad }
+func (k kind) scalar() bool { return k < kStruct }
+
+// base maps a scalar kind to the kind whose values, validators and intrinsic
+// range it shares (widths and Unpacker variants behave like their base kind).
+func (k kind) base() kind {
+	switch k {
+	case kInt8, kInt32, kUNum:
+		return kInt
+	case kUint8, kUint32, kUint64:
+		return kUint
+	case kFloat32:
+		return kFloat
+	case kULevel:
+		return kLevel
+	case kUPort:
+		return kPort
+	case kUStr:
+		return kString
+	}
+	return k
+}
+
+// unpacker: the kind's type has an Unpack method.
+func (k kind) unpacker() bool { return k == kUNum || k == kULevel || k == kUPort || k == kUStr }
 
 var kindNames = map[kind]string{kInt: "int", kInt64: "int64", kUint: "uint", kFloat: "float64", kString: "string", kDur: "duration",
-	kPort: "Port", kLevel: "Level", kDefLevel: "DefLevel", kDefBad: "DefBad", kStruct: "struct", kPtr: "ptr", kSlice: "slice", kArray: "array", kMap: "map", kIface: "iface"}
+	kPort: "Port", kLevel: "Level", kDefLevel: "DefLevel", kDefBad: "DefBad",
+	kInt8: "int8", kInt32: "int32", kUint8: "uint8", kUint32: "uint32", kUint64: "uint64", kFloat32: "float32",
+	kUNum: "UNum", kULevel: "ULevel", kUPort: "UPort", kUStr: "UStr", kStruct: "struct", kPtr: "ptr", kSlice: "slice", kArray: "array", kMap: "map", kIface: "iface"}
 
 var scalarType = map[kind]reflect.Type{kInt: tInt, kInt64: tInt64, kUint: tUint, kFloat: tFloat64, kString: tString, kDur: tDuration,
-	kPort: tPort, kLevel: tLevel, kDefLevel: tDefLevel, kDefBad: tDefBad}
+	kPort: tPort, kLevel: tLevel, kDefLevel: tDefLevel, kDefBad: tDefBad,
+	kInt8: tInt8, kInt32: tInt32, kUint8: tUint8, kUint32: tUint32, kUint64: tUint64, kFloat32: tFloat32,
+	kUNum: tUNum, kULevel: tULevel, kUPort: tUPort, kUStr: tUStr}
+
+// altTag is the second struct tag name validators are declared under; it is in
+// force when Unpack is given ValidatorTag(altTag).
+const altTag = "check"
 
 type tnode struct {
 	k      kind
@@ -50,6 +93,9 @@ type tnode struct {
 	rt     reflect.Type
 	// topColl: wrapper around the one slice / map that is itself the Unpack target
 	topColl bool
+	// tag: name of the struct tag the vals of the fields below were read from
+	// ("validate" or altTag); set on the top node
+	tag string
 }
 
 type tfield struct {
@@ -59,7 +105,8 @@ type tfield struct {
 	inline bool
 	ignore bool
 	mode   string // merge option of the config tag: "" append prepend replace merge
-	vals   []vtag
+	vals   []vtag // validators of the tag name in force
+	alt    []vtag // validators declared under the other tag name
 	t      *tnode
 }
 
@@ -133,7 +180,10 @@ func (t *tnode) hasStructMap() bool {
 // ---------------------------------------------------------------------------
 // library struct types as tnodes
 
-func fromLib(rt reflect.Type) *tnode {
+func fromLib(rt reflect.Type) *tnode { return fromLibTag(rt, "validate", altTag) }
+
+// fromLibTag reads the validators in force from the struct tag `tag`.
+func fromLibTag(rt reflect.Type, tag, other string) *tnode {
 	n := &tnode{k: kStruct, lib: rt.Name(), rt: rt}
 	for i := 0; i < rt.NumField(); i++ {
 		sf := rt.Field(i)
@@ -151,12 +201,36 @@ func fromLib(rt reflect.Type) *tnode {
 			panic("c04: unsupported library field type " + sf.Type.String())
 		}
 		n.fields = append(n.fields, &tfield{idx: i, goName: sf.Name, cfg: name, ignore: ignore,
-			vals: parseValidate(sf.Tag.Get("validate")), t: &tnode{k: k, rt: sf.Type}})
+			vals: parseValidate(sf.Tag.Get(tag)), alt: parseValidate(sf.Tag.Get(other)), t: &tnode{k: k, rt: sf.Type}})
 	}
 	return n
 }
 
-var libStructs = []reflect.Type{tWithDefaults, tWithBadDefaults, tRange, tPair, tHidden}
+var libStructs = []reflect.Type{tWithDefaults, tWithBadDefaults, tRange, tPair, tHidden, tURange}
+
+// swapTags returns a copy of the type tree in which the validators declared
+// under the other tag name are in force. The reflect types are shared.
+func swapTags(t *tnode) *tnode {
+	if t == nil {
+		return nil
+	}
+	c := *t
+	c.elem = swapTags(t.elem)
+	c.fields = nil
+	for _, f := range t.fields {
+		g := *f
+		g.vals, g.alt = f.alt, f.vals
+		g.t = swapTags(f.t)
+		c.fields = append(c.fields, &g)
+	}
+	if t.tag != "" {
+		c.tag = altTag
+		if t.tag == altTag {
+			c.tag = "validate"
+		}
+	}
+	return &c
+}
 
 // ---------------------------------------------------------------------------
 // generator
@@ -165,6 +239,8 @@ type tgen struct {
 	r      *rand.Rand
 	names  int
 	budget int
+	// twoTags: fields also declare validators under altTag
+	twoTags bool
 }
 
 var namePool = []string{"a", "b", "host", "port", "size", "max_len", "name", "timeout", "level", "items", "opt", "x", "cfg", "rate", "n", "id"}
@@ -175,7 +251,7 @@ func (g *tgen) name() (goName, cfg string) {
 }
 
 func (g *tgen) scalarKind() kind {
-	switch x := g.r.Intn(22); {
+	switch x := g.r.Intn(34); {
 	case x < 5:
 		return kInt
 	case x < 7:
@@ -194,8 +270,28 @@ func (g *tgen) scalarKind() kind {
 		return kLevel
 	case x < 21:
 		return kDefLevel
+	case x < 22:
+		return kDefBad
+	case x < 23:
+		return kInt8
+	case x < 24:
+		return kInt32
+	case x < 25:
+		return kUint8
+	case x < 26:
+		return kUint32
+	case x < 28:
+		return kUint64
+	case x < 29:
+		return kFloat32
+	case x < 31:
+		return kUNum
+	case x < 32:
+		return kULevel
+	case x < 33:
+		return kUPort
 	}
-	return kDefBad
+	return kUStr
 }
 
 func scalarNode(k kind) *tnode { return &tnode{k: k, rt: scalarType[k]} }
@@ -218,7 +314,7 @@ func (g *tgen) scalarVals(k kind) []vtag {
 		n = 2
 	}
 	var cand []string
-	switch k {
+	switch k.base() {
 	case kInt, kInt64, kFloat, kDur:
 		cand = []string{"required", "nonzero", "positive", "min", "max", "min", "max"}
 	case kUint:
@@ -256,7 +352,7 @@ func (g *tgen) scalarVals(k kind) []vtag {
 		t := vtag{name: name}
 		switch name {
 		case "min":
-			switch k {
+			switch k.base() {
 			case kDur:
 				t.param = durMin[r.Intn(len(durMin))]
 			case kFloat:
@@ -271,7 +367,7 @@ func (g *tgen) scalarVals(k kind) []vtag {
 				t.param = pick(r, "1", "2", "5", "10")
 			}
 		case "max":
-			switch k {
+			switch k.base() {
 			case kDur:
 				t.param = durMax[r.Intn(len(durMax))]
 			case kFloat:
@@ -284,9 +380,73 @@ func (g *tgen) scalarVals(k kind) []vtag {
 				t.param = pick(r, "20", "50", "100", "12")
 			}
 		}
+		// one bound in eight of a 64 bit integer field lies at the edge of the
+		// kind's range (beyond what a float64 or the other signedness holds)
+		if (name == "min" || name == "max") && wide64(k) && r.Intn(8) == 0 {
+			other := ""
+			for _, o := range out {
+				if o.name == "min" || o.name == "max" {
+					other = o.param
+				}
+			}
+			if p := edgeBound(r, k, name, other); p != "" {
+				t.param = p
+			}
+		} else if name == "max" {
+			// a max drawn after an edge min has to stay above it
+			for _, o := range out {
+				if o.name == "min" && isEdge(o.param) {
+					t.param = edgeBound(r, k, "max", o.param)
+				}
+			}
+		}
 		out = append(out, t)
 	}
 	return out
+}
+
+// wide64: 64 bit integer kinds.
+func wide64(k kind) bool {
+	switch k {
+	case kInt64, kUint64:
+		return true
+	case kInt, kUint:
+		return strconv.IntSize == 64
+	}
+	return false
+}
+
+func isEdge(param string) bool { return len(strings.TrimLeft(param, "-")) > 16 }
+
+// edgeBound draws a bound at the edge of the range of a 64 bit integer kind
+// that leaves room next to the field's other bound ("" = none; no edge bound
+// is drawn next to an ordinary one on the wrong side).
+func edgeBound(r *rand.Rand, k kind, name, other string) string {
+	unsigned := k.base() == kUint
+	switch {
+	case name == "max" && other == "":
+		if unsigned {
+			return pick(r, "9223372036854775807", "9223372036854775808", "18446744073709551614")
+		}
+		return "9223372036854775806"
+	case name == "max": // above any min
+		if unsigned {
+			return "18446744073709551614"
+		}
+		return "9223372036854775806"
+	case name == "min" && (other == "" || isEdge(other) && !strings.HasPrefix(other, "-")):
+		if unsigned {
+			if other == "9223372036854775807" {
+				return "9223372036854775806"
+			}
+			return pick(r, "9223372036854775807", "9223372036854775808")
+		}
+		if other != "" {
+			return "-9223372036854775807"
+		}
+		return pick(r, "-9223372036854775807", "9223372036854775806")
+	}
+	return ""
 }
 
 var tagModes = []string{"append", "prepend", "replace", "merge", "append", "prepend"}
